@@ -280,11 +280,28 @@ func c12Inbound(tunnel bool) func() {
 			g.N = n
 			n++
 			mc.Log(g)
-			if tunnel {
-				sock.Deliver(&knxnet.TunnelReq{Channel: 7, SeqNumber: seq, Payload: m})
-				seq++
+			// the telegram travels as the octets a foreign stack sends (reference encoder) and is
+			// decoded by the library's own decoder, as its socket receiver would do; a frame the
+			// decoder turns down never reaches the client (the gateway's number is not used up)
+			var svc knxnet.Service
+			if body, err := refenc.EncodeCEMI(m); err == nil {
+				wire := refenc.RoutingInd(body)
+				if tunnel {
+					wire = refenc.TunnelReq(7, seq, body)
+				}
+				if _, err := knxnet.Unpack(wire, &svc); err != nil {
+					mc.Log(Note(fmt.Sprintf("inbound frame %d rejected by the decoder: %v", g.N, err)))
+					mc.Sleep(1 * ms)
+					return
+				}
+			} else if tunnel {
+				svc = &knxnet.TunnelReq{Channel: 7, SeqNumber: seq, Payload: m}
 			} else {
-				sock.Deliver(&knxnet.RoutingInd{Payload: m})
+				svc = &knxnet.RoutingInd{Payload: m}
+			}
+			sock.Deliver(svc)
+			if tunnel {
+				seq++
 			}
 			mc.Sleep(1 * ms) // one telegram at a time: ordering under bursts is C17's subject
 		}
@@ -297,42 +314,54 @@ func c12Inbound(tunnel bool) func() {
 						lens = []int{0}
 					}
 					for _, ln := range lens {
-						src := c12Addrs[k%8]
-						dst := c12Addrs[(k/8)%8]
-						k++
-						var c2 cemi.ControlField2 = cemi.Control2Hops(5)
-						if group {
-							c2 |= cemi.Control2GroupAddr
+						for fmtFlip := 0; fmtFlip < 2; fmtFlip++ {
+							if fmtFlip == 1 && kind != "LDataInd" && kind != "LDataCon" && kind != "LDataReq" {
+								continue
+							}
+							src := c12Addrs[k%8]
+							dst := c12Addrs[(k/8)%8]
+							k++
+							var c2 cemi.ControlField2 = cemi.Control2Hops(5)
+							if group {
+								c2 |= cemi.Control2GroupAddr
+							}
+							var unit cemi.TransportUnit
+							var data []byte
+							if apci < 0 {
+								unit = &cemi.ControlData{Command: 1}
+							} else {
+								data = c12Payload(ln, byte(0x15+apci))
+								data[0] &= 0x3F
+								unit = &cemi.AppData{Command: cemi.APCI(apci), Data: data}
+							}
+							// the frame-format flag as the library itself sets it (standard frame up to 15
+							// octets) and the other way round (a foreign stack may put a short telegram into
+							// an extended frame): the filter does not depend on it
+							c1 := cemi.Control1NoRepeat
+							if (ln <= 15) == (fmtFlip == 0) {
+								c1 |= cemi.Control1StdFrame
+							}
+							ld := cemi.LData{Control1: c1, Control2: c2, Source: cemi.IndividualAddr(src), Destination: dst, Data: unit}
+							var m cemi.Message
+							switch kind {
+							case "LDataInd":
+								m = &cemi.LDataInd{LData: ld}
+							case "LDataCon":
+								m = &cemi.LDataCon{LData: ld}
+							case "LDataReq":
+								m = &cemi.LDataReq{LData: ld}
+							case "LRawInd":
+								m = &cemi.LRawInd{LRaw: cemi.LRaw{1, 2, 3}}
+							case "LBusmonInd":
+								lb := cemi.LBusmonInd{1, 2, 3}
+								m = &lb
+							default:
+								m = &cemi.UnsupportedMessage{Code: 0x99, Data: []byte{1}}
+							}
+							surface := kind == "LDataInd" && group && apci >= 0 && apci <= 2
+							push(m, GInj{Kind: kind, Group: group, APCI: apci, Src: src, Dst: dst, Data: data, Surface: surface})
 						}
-						var unit cemi.TransportUnit
-						var data []byte
-						if apci < 0 {
-							unit = &cemi.ControlData{Command: 1}
-						} else {
-							data = c12Payload(ln, byte(0x15+apci))
-							data[0] &= 0x3F
-							unit = &cemi.AppData{Command: cemi.APCI(apci), Data: data}
-						}
-						ld := cemi.LData{Control1: cemi.Control1StdFrame, Control2: c2, Source: cemi.IndividualAddr(src), Destination: dst, Data: unit}
-						var m cemi.Message
-						switch kind {
-						case "LDataInd":
-							m = &cemi.LDataInd{LData: ld}
-						case "LDataCon":
-							m = &cemi.LDataCon{LData: ld}
-						case "LDataReq":
-							m = &cemi.LDataReq{LData: ld}
-						case "LRawInd":
-							m = &cemi.LRawInd{LRaw: cemi.LRaw{1, 2, 3}}
-						case "LBusmonInd":
-							lb := cemi.LBusmonInd{1, 2, 3}
-							m = &lb
-						default:
-							m = &cemi.UnsupportedMessage{Code: 0x99, Data: []byte{1}}
-						}
-						surface := kind == "LDataInd" && group && apci >= 0 && apci <= 2
-						push(m, GInj{Kind: kind, Group: group, APCI: apci, Src: src, Dst: dst, Data: data, Surface: surface})
-						if kind != "LDataInd" && kind != "LDataCon" && kind != "LDataReq" && ln != lens[0] {
+						if kind != "LDataInd" && kind != "LDataCon" && kind != "LDataReq" {
 							break
 						}
 					}
